@@ -187,6 +187,8 @@ def scn_refuse(c):
 def scn_quiver(c, ci):
     it, ds, conv, conv_name = _setup(c, ci)
     axes = Recorder('axes')
+    centres0 = expect_ok(c, 'face_centres', lambda: attr(it, conv, 'face_centres'))
+    centre_values = centres0.fn            # the face centres as they are before anything is plotted
     expect_ok(c, 'make_quiver returns', lambda: method(it, conv, 'make_quiver', axes, 'u', ds._da('v')))
     calls = [e for e in c.events if e[0] == 'plot' and e[1].endswith('Quiver')]
     c.check('exactly one Quiver is built', len(calls) == 1)
@@ -207,8 +209,11 @@ def scn_quiver(c, ci):
     c.assume(n < size)
     shape, gdims = ds.info['shape']['face'], ds.info['dims']['face']
     comps = dict(zip(gdims, unravel(n, tuple(shape))))
-    c.check('arrow n sits at face centre n (x)', X.fn((n,)).same_bits(centres.fn((n, 0))))
-    c.check('arrow n sits at face centre n (y)', Y.fn((n,)).same_bits(centres.fn((n, 1))))
+    c.check('arrow n sits at face centre n (x), whatever its components are (missing components do not move it)', X.fn((n,)).same_bits(centre_values((n, 0))))
+    c.check('arrow n sits at face centre n (y), whatever its components are (missing components do not move it)', Y.fn((n,)).same_bits(centre_values((n, 1))))
+    after = attr(it, conv, 'face_centres')
+    c.check('plotting vectors does not change the face centres of the convention (the next plot uses them again)',
+            after is centres0 and s_and(after.fn((n, 0)).same_bits(centre_values((n, 0))), after.fn((n, 1)).same_bits(centre_values((n, 1)))))
     for nm, a in (('u', U), ('v', V)):
         v = ds._vars[nm]
         c.check(f'arrow n carries the {nm} component of cell n', a.fn((n,)).same_bits(v.arr.fn(tuple(comps[d] for d in v.dims))))
